@@ -5,6 +5,10 @@ The hash `H` is an arbitrary function (nothing is assumed about blake3): conclus
 "the check does not answer true, or here is an explicit `H`-collision".
 -/
 import JubakoModel.Model.Pack
+import JubakoModel.Lemmas.Codec
+import JubakoModel.Lemmas.Mask
+
+set_option maxRecDepth 8000
 
 namespace Jubako
 
@@ -41,5 +45,119 @@ theorem c04_verdict_depends_only_on_checked (H mask : Bytes → Bytes) (f g : By
   cases packCheckParts g with
   | ok a => obtain ⟨cip, ci⟩ := a; cases ci <;> simp [bind, Outcome.bind, hm, hl]
   | _ => rfl
+
+end Jubako
+
+namespace Jubako
+
+/-- **The streaming check reads exactly the pure mask**, whatever buffer sizes the hasher uses
+    (`ManifestCheckStream::read` vs `manifestMask`), once the whole source has been delivered. -/
+theorem c04_stream_eq_mask (po n : Nat) (src : Bytes) (reqs : List Nat)
+    (h : (checkStreamDrain po n 0 src reqs).length = src.length) :
+    checkStreamDrain po n 0 src reqs = manifestMask po n src :=
+  checkStreamDrain_all po n src reqs h
+
+/-- every read with a non-empty buffer on a non-exhausted source delivers at least one byte, so
+    reading until a read returns nothing does deliver the whole source -/
+theorem c04_stream_progress (po n pos : Nat) (src : Bytes) (req : Nat) (hr : 0 < req) (hs : src ≠ []) :
+    0 < (checkStreamRead po n pos src req).1.length :=
+  (checkStreamRead_spec po n pos src req).2.2.2 hr hs
+
+/-- **The only exempt bytes**: a manifest position is read as zero by the check iff it lies in the
+    location field or the CRC of one of the `n` pack-info blocks (bytes 38..255 of the block). -/
+theorem c04_exempt_exactly (po n p : Nat) :
+    maskedPos po n p = true ↔ ∃ k, k < n ∧ po + k * 256 + 38 ≤ p ∧ p < po + (k + 1) * 256 :=
+  maskedPos_iff po n p
+
+/-- an alteration of a non-exempt byte below the check position changes the byte string that is
+    hashed (for the identity mask of content / directory packs every byte is non-exempt: `n = 0`) -/
+theorem c04_unmasked_alteration_changes_hashed (po n cip p : Nat) (f alt : Bytes)
+    (hp : p < cip) (hpf : p < f.length) (hpa : p < alt.length)
+    (hne : alt[p]? ≠ f[p]?) (hm : maskedPos po n p = false) :
+    manifestMask po n (alt.take cip) ≠ manifestMask po n (f.take cip) := by
+  intro heq
+  have h1 := maskFrom_getElem? po n 0 (alt.take cip) p
+  have h2 := maskFrom_getElem? po n 0 (f.take cip) p
+  simp only [manifestMask] at heq
+  rw [heq, h2] at h1
+  simp only [Nat.zero_add, hm, List.getElem?_take, hp, if_true] at h1
+  apply hne
+  cases ha : alt[p]? <;> cases hf : f[p]? <;> simp_all
+
+theorem manifestMask_zero_blocks (po : Nat) (bs : Bytes) : manifestMask po 0 bs = bs := by
+  apply maskFrom_unmasked
+  intro i _
+  simp only [maskedPos, Nat.zero_mul, Nat.add_zero, Nat.zero_add]
+  cases h1 : decide (po ≤ i) <;> cases h2 : decide (i < po) <;> simp_all
+  omega
+
+/-- **Created packs verify.**  Any pack laid out as the creators do — header block, body, check
+    block holding `H` of the masked prefix, mirrored tail — with a well-formed header whose
+    `checkInfoPos`/`packSize` describe that layout, passes `Pack::check`, for every hash function
+    with 32-byte output and every mask. -/
+theorem c04_created_verifies (H mask : Bytes → Bytes) (h : PackHeader) (body : Bytes)
+    (hw : h.WF) (hv : h.major = Consts.versionGateMajor ∧ h.minor = Consts.versionGateMinor)
+    (hcip : h.checkInfoPos = 64 + body.length) (hsz : h.packSize = h.checkInfoPos + 37 + 64)
+    (hH : ∀ x, (H x).length = 32) :
+    packCheck H mask (framePack H mask h body) = .ok true := by
+  have hel := PackHeader.encode_length h hw
+  have hbl : (block h.encode).length = 64 := by rw [block_length, hel]
+  -- header block reads back
+  have hrd : readBlock (framePack H mask h body) 0 60 = .ok h.encode := by
+    have := readBlock_block [] h.encode (body ++ block (CheckInfo.blake3 (H (mask (block h.encode ++ body)))).encode ++ packTail (block h.encode))
+    simp only [List.nil_append, List.length_nil, hel] at this
+    simpa [framePack, List.append_assoc] using this
+  -- check block reads back
+  have hcl : (CheckInfo.blake3 (H (mask (block h.encode ++ body)))).encode.length = 33 := by
+    simp [CheckInfo.encode, hH]
+  have hrc : readBlock (framePack H mask h body) h.checkInfoPos 33
+      = .ok (CheckInfo.blake3 (H (mask (block h.encode ++ body)))).encode := by
+    have := readBlock_block (block h.encode ++ body) (CheckInfo.blake3 (H (mask (block h.encode ++ body)))).encode (packTail (block h.encode))
+    rw [hcl] at this
+    have hl : (block h.encode ++ body).length = h.checkInfoPos := by
+      rw [List.length_append, hbl, hcip]
+    rw [hl] at this
+    simpa [framePack] using this
+  have hsize : h.checkInfoSize = some 33 := by
+    unfold PackHeader.checkInfoSize
+    have h1 : h.checkInfoPos + 68 ≤ h.packSize := by omega
+    rw [if_pos h1]
+    have h2 : h.packSize - 64 - h.checkInfoPos - 4 = 33 := by omega
+    rw [h2]
+  have hparts : packCheckParts (framePack H mask h body)
+      = .ok (h.checkInfoPos, .blake3 (H (mask (block h.encode ++ body)))) := by
+    generalize hF : framePack H mask h body = F at hrd hrc
+    unfold packCheckParts
+    rw [hrd]
+    show (PackHeader.decode h.encode).bind _ = _
+    rw [PackHeader.decode_encode h hw hv]
+    show (match h.checkInfoSize with | none => _ | some n => _) = _
+    rw [hsize]
+    show (readBlock F h.checkInfoPos 33).bind _ = _
+    rw [hrc]
+    show (CheckInfo.decode _).bind _ = _
+    rw [CheckInfo.decode_encode _ (by intro x hx; cases hx; exact hH _)]
+    rfl
+  have htake : (framePack H mask h body).take h.checkInfoPos = block h.encode ++ body := by
+    have hl : (block h.encode ++ body).length = h.checkInfoPos := by
+      rw [List.length_append, hbl, hcip]
+    simp only [framePack, List.append_assoc]
+    rw [← List.append_assoc, ← hl, List.take_left']
+    rfl
+  have hlen : h.checkInfoPos ≤ (framePack H mask h body).length := by
+    simp only [framePack, List.length_append, hbl]; omega
+  generalize hF : framePack H mask h body = F at hparts htake hlen
+  unfold packCheck
+  rw [hparts]
+  show (if h.checkInfoPos ≤ F.length then Outcome.ok (H (mask (F.take h.checkInfoPos)) == _) else _) = _
+  rw [if_pos hlen, htake]
+  simp
+
+/-- non-vacuity of `c04_created_verifies`: a header meeting every hypothesis -/
+example :
+    let h : PackHeader := ⟨.content, [1, 2, 3, 4], 0, 2, List.replicate 16 7, 0, 64 + 3 + 37 + 64, 64 + 3⟩
+    h.WF ∧ (h.major = Consts.versionGateMajor ∧ h.minor = Consts.versionGateMinor) ∧
+    h.checkInfoPos = 64 + ([1, 2, 3] : Bytes).length ∧ h.packSize = h.checkInfoPos + 37 + 64 := by
+  simp [PackHeader.WF, Consts.versionGateMajor, Consts.versionGateMinor]
 
 end Jubako
